@@ -367,22 +367,72 @@ def check_run_shape(col: Collector, repo: Repo, ex, run_dir_var):
     # output_path is the run dir: write_cpp_files(..., run dir) returns ExecutionInfo(output_path=run dir) - checked in R2 + C02
     # cache volumes: one appended entry per docker_cache_volume()
     ok = False
+    helpers = []          # repo functions the loop hands the volume info to
+    mutated = []          # writes to the (shared) volume info objects
+    name_ok, name_src, name_loc = False, None, loc
     for n in walk_no_nested(fn):
         if isinstance(n, ast.For) and isinstance(n.iter, ast.Call) and src(n.iter) == "self.docker_cache_volume()":
+            tgt = src(n.target)
             apps = [c for c in ast.walk(n) if isinstance(c, ast.Call) and call_name(c) == "append" and isinstance(vol, ast.Name)
                     and src(c.func.value) == vol.id]
             pmn = parent_map(fn)
+            for c in ast.walk(n):
+                if isinstance(c, ast.Call) and any(isinstance(a, ast.Name) and a.id == tgt for a in c.args):
+                    for g in repo.resolve_call(ex, c):
+                        if g.module.name.startswith("func_adl_xAOD"):
+                            helpers.append((c, g))
+            # aliases of the loop variable inside the loop: the variable itself and results of helpers that return their parameter
+            aliases = {tgt}
+            derived = {}      # local <- helper(<info>): a volume description computed from the info
+            for c, g in helpers:
+                for a in ast.walk(n):
+                    if isinstance(a, ast.Assign) and a.value is c and isinstance(a.targets[0], ast.Name):
+                        derived[a.targets[0].id] = g
+                prm = g.node.args.args[0].arg if g.node.args.args else None
+                if prm and any(isinstance(r, ast.Return) and isinstance(r.value, ast.Name) and r.value.id == prm for r in walk_no_nested(g.node)):
+                    for a in ast.walk(n):
+                        if isinstance(a, ast.Assign) and a.value is c and isinstance(a.targets[0], ast.Name):
+                            aliases.add(a.targets[0].id)
+                for w in ast.walk(g.node):
+                    if isinstance(w, ast.Attribute) and isinstance(w.ctx, (ast.Store, ast.Del)) and isinstance(w.value, ast.Name) and w.value.id == prm:
+                        mutated.append(f"{g.short}:{src(w)}")
+                    if isinstance(w, ast.Call) and call_name(w) in ("setattr", "delattr") and w.args and src(w.args[0]) == prm:
+                        mutated.append(f"{g.short}:{src(w)}")
+            for w in ast.walk(n):
+                if isinstance(w, ast.Attribute) and isinstance(w.ctx, (ast.Store, ast.Del)) and isinstance(w.value, ast.Name) and w.value.id in aliases:
+                    mutated.append(f"{ex.short}:{src(w)}")
             if len(apps) == 1 and isinstance(apps[0].args[0], ast.Tuple) and len(apps[0].args[0].elts) >= 2 \
                     and not [g for g in guards(fn, apps[0], pmn) if not isinstance(g[0], ast.Constant)]:
                 t = apps[0].args[0]
-                first = src(_resolve_in(n, t.elts[0]))
-                ok = "_docker_volume_name" in first and src(t.elts[1]) == f"{src(n.target)}.mount_point"
+                first = _resolve_in(n, t.elts[0])
+                mp = t.elts[1]
+                mp_ok = isinstance(mp, ast.Attribute) and mp.attr == "mount_point" and isinstance(mp.value, ast.Name) and (mp.value.id in aliases or mp.value.id in derived)
+                # the volume name: <helper>(<info>) whose single return is built from <param>.docker_name, or that expression in line
+                if isinstance(first, ast.Call) and any(c is first for c, _ in helpers):
+                    g = [g for c, g in helpers if c is first][0]
+                    prm = g.node.args.args[0].arg
+                    rets = [x for x in walk_no_nested(g.node) if isinstance(x, ast.Return)]
+                    name_src = src(rets[0].value) if rets else None
+                    name_ok = len(rets) == 1 and f"{prm}.docker_name" in name_src
+                    name_loc = g.loc
+                elif isinstance(first, ast.Attribute) and first.attr == "docker_name" and isinstance(first.value, ast.Name) and first.value.id in derived:
+                    g = derived[first.value.id]
+                    prm = g.node.args.args[0].arg
+                    name_src = f"{src(first)} with {first.value.id} = {g.short}({tgt})"
+                    name_ok = any(isinstance(a, ast.Attribute) and a.attr == "docker_name" and isinstance(a.ctx, ast.Load) and src(a.value) == prm
+                                  for a in ast.walk(g.node))
+                    name_loc = g.loc
+                else:
+                    name_src = src(first)
+                    name_ok = any(isinstance(a, ast.Attribute) and a.attr == "docker_name" and isinstance(a.value, ast.Name) and a.value.id == tgt
+                                  for a in ast.walk(first))
+                ok = mp_ok and name_ok
     col.add("C17.R3", ex.short, "one-mount-per-cache-volume", ok,
-            "every docker_cache_volume() must be appended as (func_adl_<name>, <its mount point>)", loc)
-    vn = repo.function("_docker_volume_name")
-    rets = [x for x in walk_no_nested(vn.node) if isinstance(x, ast.Return)]
-    col.add("C17.R3", "_docker_volume_name", "name-derived-from-volume-info", len(rets) == 1 and "info.docker_name" in src(rets[0].value),
-            f"volume name must be derived from the volume info's docker_name ({src(rets[0].value) if rets else None})", vn.loc)
+            "every docker_cache_volume() must be appended as (<name derived from its docker_name>, <its mount point>)", loc)
+    col.add("C17.R3", "cache-volume-name", "name-derived-from-volume-info", name_ok,
+            f"volume name must be derived from the volume info's docker_name ({name_src})", name_loc)
+    col.add("C17.R3", ex.short, "cache-volume-infos-not-mutated", not mutated,
+            f"docker_cache_volume() may hand out shared objects: writing to them makes the mounted volume depend on earlier runs ({mutated})", loc)
     # the volumes list is passed whole and the loop runs before docker.run
     col.add("C17.R3", ex.short, "volumes-passed-whole", isinstance(vol, ast.Name), f"volumes={src(vol)}", loc)
 
